@@ -325,6 +325,8 @@ def _is_size(fn, du, op, depth=0):
             n = o.callee
             if n.endswith("::len") or n.endswith("::count") or n.endswith("::capacity"):
                 continue
+            if CURRENT_F is not None and depth < 2 and _returns_size(CURRENT_F, (o.term or {}).get("resolved") or n, depth + 1):
+                continue
             return False
         if o.kind == "const":
             if "int" in o.const and 0 <= o.const["int"] < (1 << 32):
@@ -332,6 +334,31 @@ def _is_size(fn, du, op, depth=0):
             return False
         return False
     return True
+
+
+def _returns_size(F, path, depth):
+    """a workspace function whose result (possibly wrapped in Some / None) is only ever a collection size or a small literal
+    (`Subset::count`-like accessors, whatever they are called)"""
+    g = F.fns.get(path)
+    if g is None or len(g["blocks"]) > 60:
+        return False
+    du = mir.DefUse(g)
+    seen_any = False
+    for o in mir.provenance(g, du, {"l": 0, "p": []}):
+        if o.kind == "agg" and o.rv.get("adt") == "std::option::Option":
+            if o.rv.get("variant") == "None":
+                continue
+            if o.rv.get("variant") == "Some" and _is_size(g, du, o.rv["ops"][0], depth):
+                seen_any = True
+                continue
+            return False
+        if o.kind == "call" and (o.callee.endswith("::len") or o.callee.endswith("::capacity")):
+            seen_any = True
+            continue
+        if o.kind == "const" and "int" in o.const and 0 <= o.const["int"] < (1 << 32):
+            continue
+        return False
+    return seen_any
 
 
 def sizes_sum(fn, du, site):
